@@ -173,8 +173,14 @@ Qed.
 Definition n9000 : nat := Z.to_nat 9000.
 Lemma n9000_eq : Z.of_nat n9000 = 9000.
 Proof. vm_compute. reflexivity. Qed.
-Definition print4_table : bool :=
-  forallb (fun k => str_eqb (print_nat (1000 + Z.of_nat k)) (d4 (1000 + Z.of_nat k))) (seq 0 n9000).
+
+(* finite table, checked by computation: '%d' % y = '%04d' % y for every y in [1000, 9999] *)
+Lemma print4_table_true :
+  forallb (fun k => str_eqb (print_nat (1000 + Z.of_nat k)) (d4 (1000 + Z.of_nat k))) (seq 0 n9000) = true.
+Proof. vm_compute. reflexivity. Qed.
+
+Lemma table_lift (f : nat -> bool) (n : nat) : forallb f (seq 0 n) = true -> forall k, (k < n)%nat -> f k = true.
+Proof. intros T k Hk. rewrite forallb_forall in T. apply T, in_seq. lia. Qed.
 
 Lemma str_eqb_eq a b : str_eqb a b = true -> a = b.
 Proof.
@@ -184,10 +190,10 @@ Qed.
 
 Lemma print_nat_4 y : 1000 <= y <= 9999 -> print_nat y = d4 y.
 Proof.
-  intros H. assert (T : print4_table = true) by (vm_compute; reflexivity).
-  unfold print4_table in T. rewrite forallb_forall in T.
-  specialize (T (Z.to_nat (y - 1000))). replace (1000 + Z.of_nat (Z.to_nat (y - 1000))) with y in T by lia.
-  apply str_eqb_eq, T. apply in_seq. pose proof n9000_eq. lia.
+  intros H. apply str_eqb_eq.
+  pose proof (table_lift _ n9000 print4_table_true (Z.to_nat (y - 1000))) as T. cbv beta in T.
+  replace (1000 + Z.of_nat (Z.to_nat (y - 1000))) with y in T by lia.
+  apply T. apply Nat2Z.inj_lt. rewrite n9000_eq, Z2Nat.id; lia.
 Qed.
 
 Theorem date_reload_except_known d : valid_date d -> 1000 <= dy d -> reload_date d = RVal d.
@@ -216,11 +222,17 @@ Proof.
 Qed.
 
 (* ------------------------------------------------------------------------------------------------ Decimal *)
+Lemma quantize_at_scale sc c : quantize sc (c, - sc) = (c, - sc).
+Proof.
+  unfold quantize. replace (- sc >=? - sc) with true by lia. rewrite Z.add_opp_diag_l. change (10 ^ 0) with 1. rewrite Z.mul_1_r. reflexivity.
+Qed.
+
+Lemma quantize_exp sc d : snd (quantize sc d) = - sc.
+Proof. destruct d as [c e]. unfold quantize. destruct (e >=? - sc); reflexivity. Qed.
+
 Lemma quantize_idem sc d : quantize sc (quantize sc d) = quantize sc d.
 Proof.
-  destruct d as [c e]. unfold quantize at 2. destruct (e >=? - sc) eqn:E.
-  - unfold quantize. replace (- sc >=? - sc) with true by lia. rewrite Z.add_opp_diag_l. change (10 ^ 0) with 1. rewrite Z.mul_1_r. reflexivity.
-  - cbv zeta. unfold quantize. replace (- sc >=? - sc) with true by lia. rewrite Z.add_opp_diag_l. change (10 ^ 0) with 1. rewrite Z.mul_1_r. reflexivity.
+  pose proof (quantize_exp sc d) as H. destruct (quantize sc d) as [c' e']. cbn [snd] in H. subst e'. apply quantize_at_scale.
 Qed.
 
 (* a value whose exponent is not below the scale is stored exactly *)
